@@ -160,7 +160,7 @@ def rule_glue(rep: Report, rid="C02.glue") -> None:
     I_ = _ni()
     I_.intrinsics["gherkin.ast_builder.AstBuilder.get_result"] = lambda I2, st, fi2, args, kw, n, tree: ("builder_result", args[0])
     t_, rv_, s_ = I_.run(fi.qualname)
-    ok = rv_ == ("builder_result", ("attr", ("param", fi.params()[0]), "ast_builder"))
+    ok = rv_ == ("builder_result", ("attr", ("param", fi.params()[0]), N.PARSER_BUILDER))
     rep.ob(rid, "Parser.get_result returns ast_builder.get_result()", ok, file=PARSER_FILE, line=fi.node.lineno,
            function=fi.qualname, expected="return self.ast_builder.get_result()", found=_fmt(rv_, I_))
     # dispatch
